@@ -399,12 +399,16 @@ def run_case(run, spec):
     # ---- history: random access order with repeats, positive and negative ints
     hist = [int(rng.integers(-n, n)) for _ in range(min(3 * n + 2, 14))]
     hist += [0, n - 1, -1, -n, hist[0]]
-    for i in hist:
-        ok, got, ls, ws = get(i)
+    for hpos, i in enumerate(hist):
+        # every third access of every second case uses a numpy integer (what np.random.permutation / index arrays hand out)
+        i_arg = np.int64(i) if (spec["seed"] % 2 == 0 and hpos % 3 == 1) else i
+        if i_arg is not i:
+            run.count("numpy_integer_indices")
+        ok, got, ls, ws = get(i_arg)
         if not ok:
             return
         run.count("index_forms_checked")
-        if not check_one(got, i % n if i >= 0 else i + n, f"ds[{i}]", ls, ws):
+        if not check_one(got, i % n if i >= 0 else i + n, f"ds[{i!r}{' as np.int64' if i_arg is not i else ''}]", ls, ws):
             return
     # ---- an index beyond the last sample must not silently deliver some other sample (sequence semantics: it raises)
     if not any(L == "concat" for L in spec["layers"]) and any(m != "index" and not m.startswith("ctx.") for m in mode):
@@ -431,6 +435,8 @@ def run_case(run, spec):
         if not _check_seq(run, desc, f"ds[{sl}]", got, want_idx, ds, mode, return_ctx, spec, expect_propagate):
             return
     li = [int(rng.integers(-n, n)) for _ in range(int(rng.integers(0, 6)))]
+    if spec["seed"] % 3 == 0:
+        li = [np.int64(i) for i in li]  # an index list built from a numpy array
     ok, got, ls, ws = get(li)
     if not ok:
         return
@@ -577,7 +583,7 @@ class _TupleDS(torch.utils.data.Dataset):
 def _run_torch(run, spec):
     rng = np.random.default_rng(spec["seed"])
     n, width = spec["n"], spec["width"]
-    names = ["x", "class", "y", "z"][:width]
+    names = (["x", "class", "y", "z"] if spec["seed"] % 2 else ["x", "x_aug", "class", "class_before_grouping"])[:width]  # item names may contain '_'
     # every TorchWrapper of the process has its own layout: the same item name sits at different tuple positions in different wrappers
     names = [names[j] for j in rng.permutation(width)]
     tmode = " ".join(names)
